@@ -489,6 +489,26 @@ fn mode_threads(out: &mut Out, opts: &ObsOpts, listfile: &str) -> io::Result<()>
                 Err(_) => false,
             };
 
+            // Same bytes loaded a third time; before the canonical observation every image-producing
+            // accessor is called once in the opposite order (last frame / last layer / last tileset
+            // first), so that any state carried from one call to the next shows up.
+            let scramble_ok = match AsepriteFile::read(&data[..]) {
+                Ok(f3) => {
+                    for ts in f3.tilesets().iter() {
+                        let _ = ts.image();
+                    }
+                    for f in (0..f3.num_frames()).rev() {
+                        for l in (0..f3.num_layers()).rev() {
+                            let _ = f3.cel(f, l).image();
+                            let _ = f3.tilemap(l, f).map(|t| t.image());
+                        }
+                        let _ = f3.frame(f).image();
+                    }
+                    observe_file_rotated(&f3, &opts, 3) == o0
+                }
+                Err(_) => false,
+            };
+
             // 16 threads share `&file`; thread t rotates the section order by t.
             let barrier = Barrier::new(NUM_THREADS);
             let texts: Vec<std::thread::Result<String>> = std::thread::scope(|scope| {
@@ -517,8 +537,8 @@ fn mode_threads(out: &mut Out, opts: &ObsOpts, listfile: &str) -> io::Result<()>
 
             let (h1, h2) = hash_halves(&o0);
             emit(&format!(
-                "50 {} {} {} {}\n51 {} {}\n",
-                repeat_ok as u32, reload_ok as u32, threads_ok as u32, NUM_THREADS, h1, h2
+                "50 {} {} {} {}\n51 {} {}\n52 {}\n",
+                repeat_ok as u32, reload_ok as u32, threads_ok as u32, NUM_THREADS, h1, h2, scramble_ok as u32
             ));
         });
         let text = printed.lock().unwrap_or_else(|e| e.into_inner()).clone();
